@@ -303,6 +303,7 @@ func C12(c *core.Ctx) {
 		c12burst(c)
 		c12sched(c)
 		c12batches(c)
+		c12sameObject(c)
 		c12broker(c)
 		c12brokerFlow(c)
 		return
@@ -370,6 +371,7 @@ func C12(c *core.Ctx) {
 	}
 	c12sched(c)
 	c12batches(c)
+	c12sameObject(c)
 	c12broker(c)
 	c12brokerFlow(c)
 }
